@@ -8,10 +8,11 @@ import registry
 
 ALL = [json.loads(l)["id"] for l in open(os.path.join(V, "properties.jsonl")) if l.strip()]
 
+CLAIMED = set(l.strip() for l in open(os.path.join(V, "harness", "claimed.txt")) if l.strip() and not l.startswith("#"))
 checks = []
 for pid in ALL:
     p = registry.PROPS.get(pid)
-    if not p or p.get("unclaimed"):
+    if not p or pid not in CLAIMED:
         continue
     checks.append({
         "property_id": pid,
